@@ -35,6 +35,16 @@ def py_exec(req):
             return {'ok': [[k, ''.join(v3s(x) for x in v)] for k, v in c.get_gates_truth_table().items()]}
         if op == 'top_sort':
             return {'ok': [g.label for g in c.top_sort(inverse=req['inverse'])]}
+        if op == 'traverse':
+            return {'ok': py_traverse(c, req)}
+        if op == 'cycle_check':
+            from cirbo.core.circuit.validation import check_circuit_has_no_cycles
+            from cirbo.core.circuit.exceptions import CircuitValidationError
+            try:
+                check_circuit_has_no_cycles(c)
+                return {'ok': False}
+            except CircuitValidationError:
+                return {'ok': True}
         raise ValueError('py_exec: unknown op ' + op)
     except RecursionError:
         return {'err': 'Py:RecursionError'}
@@ -42,9 +52,32 @@ def py_exec(req):
         return {'err': err_name(e)}
 
 
-def canon(resp):
-    """canonical projection: dict-valued answers as sorted mappings (storage order ignored)"""
-    if 'ok' in resp and isinstance(resp['ok'], list) and resp['ok'] and isinstance(resp['ok'][0], list):
+def py_traverse(c, req):
+    """run dfs/bfs with logging hooks; the log has the model's event shape"""
+    log = []
+    kw = dict(inverse=req['inverse'], topsort_unvisited=req['topsort_unvisited'],
+              on_enter_hook=lambda g, st: log.append(['enter', g.label]),
+              on_discover_hook=lambda g, st: log.append(['discover', g.label, st[g.label].name]),
+              unvisited_hook=lambda g, st: log.append(['unvisited', g.label]),
+              on_traversal_end_hook=lambda st: log.append(['end']))
+    start = req.get('start')
+    if req['bfs']:
+        it = c.bfs(start, **kw)
+    else:
+        kw['on_exit_hook'] = lambda g, st: log.append(['exit', g.label])
+        it = c.dfs(start, **kw)
+    for g in it:
+        log.append(['yield', g.label])
+    return log
+
+
+DICT_OPS = {'eval_full', 'eval_lazy', 'eval_outputs', 'gates_tt'}
+
+
+def canon(resp, op=None):
+    """canonical projection: dict-valued answers as sorted mappings (storage order ignored);
+    order-valued answers (top_sort, traversal logs, truth tables) are compared as they are"""
+    if op in DICT_OPS and 'ok' in resp and isinstance(resp['ok'], list) and resp['ok'] and isinstance(resp['ok'][0], list):
         return {'ok': sorted(map(tuple, resp['ok']))}
     return resp
 
@@ -59,7 +92,7 @@ def compare_stream(ctx, stream, reqs):
             raise RuntimeError('driver rejected request: %r -> %r' % (r, b))
         if a == b:
             ctx.count('agree:' + stream)
-        elif canon(a) == canon(b):
+        elif canon(a, r['op']) == canon(b, r['op']):
             ctx.count('order_drift:' + stream)
         else:
             ctx.mismatch(stream, r, a, b)
